@@ -11,22 +11,60 @@ import re
 
 
 def _parse_shape(ctx, fn, prefix_attr):
-    """→ (rpartition sep, rsplit sep, maxsplit, [indices]) or None"""
+    """→ (rpartition sep, rsplit sep, maxsplit, [indices]) or None.  Structural (AST) recognition, independent of variable names,
+    comments and docstrings:
+        if not <loc>.startswith(self.<PREFIX>): raise ValueError(...)
+        <h>, _, <n> = <loc>.rpartition('<c>')
+        <p> = <h>.rsplit('<d>', <k>)
+        return LocationParts(name=<n>, tag=<p>[i1] + <p>[i2] + ...)"""
     if fn is None:
         return None
-    stmts = [ctx.unparse(s) for s in fn.body if not (isinstance(s, ast.Expr) and isinstance(getattr(s, 'value', None), ast.Constant))]
-    if len(stmts) != 4:
+    body = [s for s in fn.body if not (isinstance(s, ast.Expr) and isinstance(getattr(s, 'value', None), ast.Constant))]
+    if len(body) != 4:
         return None
-    guard, part, split, ret = stmts
-    if not re.fullmatch(r"if not location\.startswith\(self\.%s\):\n\s+raise ValueError\(.*\)" % prefix_attr, guard):
+    guard, part, split, ret = body
+    loc = fn.args.posonlyargs[1].arg if len(fn.args.posonlyargs) > 1 else (fn.args.args[1].arg if len(fn.args.args) > 1 else None)
+    if loc is None:
         return None
-    m1 = re.fullmatch(r"head, _, name = location\.rpartition\('(.)'\)", part)
-    m2 = re.fullmatch(r"parts = head\.rsplit\('(.)', (\d+)\)", split)
-    m3 = re.fullmatch(r"return LocationParts\(name=name, tag=(parts\[\d+\](?: \+ parts\[\d+\])*)\)", ret)
-    if not (m1 and m2 and m3):
+    if not (isinstance(guard, ast.If) and ctx.unparse(guard.test) == f'not {loc}.startswith(self.{prefix_attr})' and not guard.orelse
+            and len(guard.body) == 1 and isinstance(guard.body[0], ast.Raise) and ctx.unparse(guard.body[0].exc).startswith('ValueError(')):
         return None
-    idx = [int(x) for x in re.findall(r'parts\[(\d+)\]', m3.group(1))]
-    return m1.group(1), m2.group(1), int(m2.group(2)), idx
+    if not (isinstance(part, ast.Assign) and len(part.targets) == 1 and isinstance(part.targets[0], ast.Tuple) and len(part.targets[0].elts) == 3
+            and all(isinstance(e, ast.Name) for e in part.targets[0].elts)):
+        return None
+    h, _, n = (e.id for e in part.targets[0].elts)
+    c = part.value
+    if not (isinstance(c, ast.Call) and isinstance(c.func, ast.Attribute) and c.func.attr == 'rpartition' and ctx.unparse(c.func.value) == loc
+            and len(c.args) == 1 and not c.keywords and isinstance(c.args[0], ast.Constant) and isinstance(c.args[0].value, str) and len(c.args[0].value) == 1):
+        return None
+    nsep = c.args[0].value
+    if not (isinstance(split, ast.Assign) and len(split.targets) == 1 and isinstance(split.targets[0], ast.Name)):
+        return None
+    p = split.targets[0].id
+    c = split.value
+    if not (isinstance(c, ast.Call) and isinstance(c.func, ast.Attribute) and c.func.attr == 'rsplit' and ctx.unparse(c.func.value) == h
+            and len(c.args) == 2 and not c.keywords and isinstance(c.args[0], ast.Constant) and isinstance(c.args[0].value, str) and len(c.args[0].value) == 1
+            and isinstance(c.args[1], ast.Constant) and isinstance(c.args[1].value, int)):
+        return None
+    dsep, k = c.args[0].value, c.args[1].value
+    if not (isinstance(ret, ast.Return) and isinstance(ret.value, ast.Call) and ctx.unparse(ret.value.func) == 'LocationParts' and not ret.value.args):
+        return None
+    kws = {kw.arg: kw.value for kw in ret.value.keywords}
+    if set(kws) != {'name', 'tag'} or ctx.unparse(kws['name']) != n:
+        return None
+    idx = []
+
+    def walk(e):
+        if isinstance(e, ast.BinOp) and isinstance(e.op, ast.Add):
+            return walk(e.left) and walk(e.right)
+        if (isinstance(e, ast.Subscript) and isinstance(e.value, ast.Name) and e.value.id == p and isinstance(e.slice, ast.Constant)
+                and isinstance(e.slice.value, int) and e.slice.value >= 0):
+            idx.append(e.slice.value)
+            return True
+        return False
+    if not walk(kws['tag']):
+        return None
+    return nsep, dsep, k, idx
 
 
 def section(ctx):
